@@ -205,6 +205,53 @@ func check1(c Case) error {
 	if len(m) != len(c.Tag) {
 		return fmt.Errorf("the caller's map had %d entries, after rendering it has %d", len(c.Tag), len(m))
 	}
+	// the caller changes its map between the Tag call and the render (empties it, fills it, drops a key):
+	// the field then carries the tag of the map as it was at the call or as it is at the render — not a mix
+	renderField := func(st *jen.Statement) (string, error) {
+		f := jen.NewFile("p")
+		f.NoFormat = true
+		f.Type().Id("T").Struct(st)
+		b := &strings.Builder{}
+		err := f.Render(b)
+		return b.String(), err
+	}
+	cp := func(src map[string]string) map[string]string {
+		d := map[string]string{}
+		for k, v := range src {
+			d[k] = v
+		}
+		return d
+	}
+	for vi, change := range []func(mm map[string]string){
+		func(mm map[string]string) {
+			for k := range mm {
+				delete(mm, k)
+			}
+		},
+		func(mm map[string]string) { mm["zzlate"] = "1" },
+		func(mm map[string]string) {
+			for k := range mm {
+				delete(mm, k)
+				break
+			}
+		},
+	} {
+		var got, atCall, atRender string
+		if perr := hx.Safe(func() error {
+			live := cp(m)
+			st := jen.Id("F").String().Tag(live)
+			atCall, _ = renderField(jen.Id("F").String().Tag(cp(live)))
+			change(live)
+			atRender, _ = renderField(jen.Id("F").String().Tag(cp(live)))
+			got, _ = renderField(st)
+			return nil
+		}); perr != nil {
+			return fmt.Errorf("map changed between Tag and render: %v", perr)
+		}
+		if got != atCall && got != atRender {
+			return fmt.Errorf("the caller changed its map between the Tag call and the render (variant %d): the field renders\n%s\nwhich is neither the tag of the map as it was at the call\n%s\nnor as it is at the render\n%s", vi, got, atCall, atRender)
+		}
+	}
 	for _, kv := range c.Tag {
 		if v, ok := m[string(kv.K)]; !ok || v != string(kv.V) {
 			return fmt.Errorf("the caller's map was changed by rendering: key %q now maps to %q (present %v), was %q", string(kv.K), v, ok, string(kv.V))
